@@ -12,7 +12,8 @@ RULE = ("quick: exhaustive over cycles of 1..3 elements x durations 1..3 x 3 col
 ANCHORS = ["TrafficLightCycle.get_state_at_time_step", "TrafficLight.get_state_at_time_step",
            "TrafficLightCycle.cycle_init_timesteps"]
 REQUIRED = ["single-element", "t<offset", "t-many-periods", "adjacent-same-colour", "light-agrees", "retimed.swap-durations", "retimed.shift-duration",
-            "retimed.reverse-in-place", "retimed.time_offset", "retimed.append"]
+            "retimed.reverse-in-place", "retimed.time_offset", "retimed.append", "light.lamps-RYG",
+            "light.first-colour-only", "light.inactive-flag"]
 EXHAUSTIVE = {"quick": "cycles of 1..3 elements, durations 1..3, colours {RED,GREEN,YELLOW}, offsets 0..4, t in -10..40",
               "thorough": "cycles of 1..3 elements, durations 1..4, all 5 colours, offsets 0..4, t in -10..40 "
                           "(random part beyond is not exhaustive)"}
@@ -33,7 +34,7 @@ def model(states_durs, offset, t):
 def run(ctx):
     import numpy as np
     from commonroad.scenario.traffic_light import (TrafficLight, TrafficLightCycle, TrafficLightCycleElement,
-                                                   TrafficLightState)
+                                                   TrafficLightDirection, TrafficLightState)
     S = TrafficLightState
     cols = [S.RED, S.GREEN, S.YELLOW] if ctx.quick else list(S)
     durs = [1, 2, 3] if ctx.quick else [1, 2, 3, 4]
@@ -45,6 +46,8 @@ def run(ctx):
     offsets = range(0, 5)
     ts = list(range(-10, 41))
 
+    light_variant = [0]
+
     def check_case(sd, off, tlist, tag):
         ctx.fingerprint([[s.name for s, _ in sd], [d for _, d in sd], off])
         if len(sd) == 1:
@@ -54,7 +57,14 @@ def run(ctx):
         total = sum(d for _, d in sd)
         mk = lambda: TrafficLightCycle([TrafficLightCycleElement(s, d) for s, d in sd], time_offset=off)  # noqa
         cyc = mk()
-        light = TrafficLight(7, np.array([0.0, 0.0]), mk())
+        # the light's own optional arguments (lamp colours, active flag, direction) do not enter the statement:
+        # whatever they are, the light agrees with its cycle
+        lv = light_variant[0] = (light_variant[0] + 1) % 6
+        lkw = [{}, {"color": [S.RED, S.YELLOW, S.GREEN]}, {"color": [sd[0][0]]}, {"color": [s for s, _ in sd]},
+               {"active": False}, {"color": [S.GREEN], "direction": TrafficLightDirection.LEFT_STRAIGHT}][lv]
+        ctx.feature("light." + ["defaults", "lamps-RYG", "first-colour-only", "cycle-colours", "inactive-flag",
+                                "green-lamp-and-direction"][lv])
+        light = TrafficLight(7, np.array([0.0, 0.0]), mk(), **lkw)
         for t in tlist:
             ctx.evaluation()
             if t < off:
@@ -140,7 +150,8 @@ def run(ctx):
             sd[0] = (S.RED if sd[1][0] != S.RED else S.GREEN, sd[0][1])
         off = rng.choice([0, 0, 3, rng.randint(0, 30)])
         cyc = TrafficLightCycle([TrafficLightCycleElement(c, d) for c, d in sd], time_offset=off)
-        light = TrafficLight(9, np.array([1.0, 2.0]), cyc)
+        light = TrafficLight(9, np.array([1.0, 2.0]), cyc, **([{}, {"color": [S.RED, S.YELLOW, S.GREEN]},
+                                                               {"color": [sd[0][0]]}][i % 3]))
         hist = []
         for step in range(rng.randint(2, 5)):
             total = sum(d for _, d in sd)
